@@ -54,7 +54,7 @@ def snap_diff(a, b):
 
 class ReadOnly(Facet):
     name = "grammar_read_only"
-    flags = Flags(dependent=True, user_mh=True, infeasible=True, weights=True, max_concrete=6)
+    flags = Flags(dependent=True, user_mh=True, infeasible=True, weights=True, max_concrete=6, unproductive=True)
     reps = ("tree", "ge", "sge", "dsge", "stack")
 
     def budget(self, tier):
